@@ -29,6 +29,7 @@ def framing(pick, enc, hexbm, nmax, sub=True, bit1=True):
 
         def rp():
             return {'kind': 'loads', 'args': {'data': witness_bytes(msg), 'enc': enc, 'hexbm': hexbm}}
+        core.set_fallback(rp, 'C08/concretised')
         d = None
         err = None
         try:
